@@ -31,6 +31,21 @@ Theorem C18_exact_partial : forall k it,
 Proof. exact reject_iff_violates. Qed.
 Print Assumptions C18_exact_partial.
 
+(** Without any hypothesis on the item: an accepted item violates no rule other than the
+    discriminant-fit rule (the rule F11 and F12 are about). *)
+Theorem C18_accept_only_fit : forall k it r,
+  check k it = accept -> In r (violations k it) -> r = RDiscrFit.
+Proof. exact accept_only_fit. Qed.
+Print Assumptions C18_accept_only_fit.
+
+(** A key written twice inside one [#[borsh(..)]] list -- at item level, on a field, anywhere in
+    the item, next to whatever other attributes -- is refused by all three derives (commit
+    922f373; before it the last occurrence silently won). *)
+Theorem C18_repeated_key : forall k it,
+  r_repeated_key it = true -> exists c, check k it = reject c.
+Proof. exact repeated_key_rejected. Qed.
+Print Assumptions C18_repeated_key.
+
 (** * 3. The two refutations of [C18_exact] (witnesses [W_F11], [W_F12]) *)
 (** F11: [#[borsh(use_discriminant = true)] enum E { A = 255, B }] is accepted. *)
 Theorem C18_exact_refuted_F11 :
@@ -71,6 +86,20 @@ Proof. vm_compute. repeat split. Qed.
 
 (** one rejected item per class; all satisfy the hypotheses *)
 Example rej_multiple : hyps X_multiple = true /\ rejected_as DSer X_multiple CMultipleAttrs.
+Proof. vm_compute. repeat split. Qed.
+Example rej_repeated_item : hyps X_repeated_item = true /\ rejected_as DSer X_repeated_item CRepeatedKey.
+Proof. vm_compute. repeat split. Qed.
+Example rej_repeated_ud :
+  hyps X_repeated_ud = true /\ rejected_as DSer X_repeated_ud CRepeatedKey /\
+  rejected_as DDe X_repeated_ud CRepeatedKey /\ rejected_as DSchema X_repeated_ud CRepeatedKey.
+Proof. vm_compute. repeat split. Qed.
+Example rej_repeated_skip : hyps X_repeated_skip = true /\ rejected_as DDe X_repeated_skip CRepeatedKey.
+Proof. vm_compute. repeat split. Qed.
+Example rej_repeated_with : hyps X_repeated_with = true /\ rejected_as DSer X_repeated_with CRepeatedKey.
+Proof. vm_compute. repeat split. Qed.
+Example rej_repeated_schema :
+  check DSchema X_repeated_schema = reject CRepeatedKey /\
+  violations DSchema X_repeated_schema = [RRepeatedKey; RSkipConflict].
 Proof. vm_compute. repeat split. Qed.
 Example rej_variant_attr : hyps X_variant_attr = true /\ rejected_as DSer X_variant_attr CVariantAttr.
 Proof. vm_compute. repeat split. Qed.
